@@ -8,6 +8,7 @@
 // Files live in the directory given by the environment variable VERIF_C08_DIR.
 #include "sx.hpp"
 #include <dlfcn.h>
+#include <unistd.h>
 #include <fstream>
 #include <functional>
 #define private public
@@ -264,9 +265,9 @@ static Cls cls_hermite() {
   c.G = [](const ASerializable* o) { auto a = dynamic_cast<const AnamHermite*>(o);
     return "(" + sx_d(a->getAzmin()) + " " + sx_d(a->getAzmax()) + " " + sx_d(a->getAymin()) + " " + sx_d(a->getAymax()) + " " +
            sx_d(a->getPzmin()) + " " + sx_d(a->getPzmax()) + " " + sx_d(a->getPymin()) + " " + sx_d(a->getPymax()) + " " +
-           sx_d(a->getMean()) + " " + sx_d(a->getVariance()) + " " + sx_d(a->getRCoef()) + " " + sx_vdd(a->_psiHn) + ")"; };
+           sx_d(a->getMean()) + " " + sx_d(a->getVariance()) + " " + sx_d(a->getRCoef()) + " " + sx_vdd(a->_psiHn) + " " + sx_b(a->getFlagBound()) + ")"; };
   c.X = [](const ASerializable* o) { auto a = dynamic_cast<const AnamHermite*>(o);
-    std::string s = "(" + sx_b(a->getFlagBound()) + " " + sx_vdd(a->getPsiHns()) + " (";
+    std::string s = "(" + sx_vdd(a->getPsiHns()) + " (";
     if (a->getNbPoly() > 0) for (double y : { -1.5, 0., 0.7, 2.5 }) s += " " + sx_d(a->transformToRawValue(y));
     return s + "))"; };
   return c;
@@ -307,11 +308,27 @@ static void add_cols(Db* db, const Sx& cols) {
     if (t >= 0 && uids[k] >= 0) db->setLocatorByUID(uids[k], ELoc::fromValue(t), (int) cols[k][2].i());
   }
 }
+// all the columns given at the creation (adding them one by one checks every name against all the others each time)
+static void bulk_cols(const Sx& cols, VectorDouble& tab, VectorString& names) {
+  for (auto& c : cols.l) { VectorDouble v = VD(c[3]); tab.insert(tab.end(), v.begin(), v.end()); names.push_back(c[0].str()); }
+}
+static void bulk_locators(Db* db, const Sx& cols, int shift) {
+  for (size_t k = 0; k < cols.size(); k++) {
+    int t = (int) cols[k][1].i();
+    if (t >= 0) db->setLocatorByUID((int) k + shift, ELoc::fromValue(t), (int) cols[k][2].i());
+  }
+}
 static Cls cls_db() {
   Cls c;
-  // recipe: (nech addRank cols)
+  // recipe: (nech addRank cols [bulk])
   c.build = [](const Sx& r) -> ASerializable* {
     int nech = (int) r[0].i();
+    if (r.size() > 3 && r[3].b()) {
+      VectorDouble tab; VectorString names; bulk_cols(r[2], tab, names);
+      Db* db = Db::createFromSamples(nech, ELoadBy::COLUMN, tab, names, VectorString(), r[1].b());
+      if (db != nullptr) bulk_locators(db, r[2], r[1].b() ? 1 : 0);
+      return db;
+    }
     Db* db = Db::createFromSamples(nech, ELoadBy::COLUMN, VectorDouble(), VectorString(), VectorString(), r[1].b());
     add_cols(db, r[2]);
     return db; };
@@ -322,8 +339,14 @@ static Cls cls_db() {
 }
 static Cls cls_dbgrid() {
   Cls c;
-  // recipe: (nx dx x0 angles addRank addCoor cols)
+  // recipe: (nx dx x0 angles addRank addCoor cols [bulk])
   c.build = [](const Sx& r) -> ASerializable* {
+    if (r.size() > 7 && r[7].b()) {
+      VectorDouble tab; VectorString names; bulk_cols(r[6], tab, names);
+      DbGrid* g = DbGrid::create(VI(r[0]), VD(r[1]), VD(r[2]), VD(r[3]), ELoadBy::COLUMN, tab, names, VectorString(), r[4].b(), r[5].b());
+      if (g != nullptr) bulk_locators(g, r[6], (r[4].b() ? 1 : 0) + (r[5].b() ? (int) r[0].size() : 0));
+      return g;
+    }
     DbGrid* g = DbGrid::create(VI(r[0]), VD(r[1]), VD(r[2]), VD(r[3]), ELoadBy::COLUMN, VectorDouble(), VectorString(), VectorString(), r[4].b(), r[5].b());
     if (g != nullptr) add_cols(g, r[6]);
     return g; };
@@ -345,15 +368,17 @@ static Cls cls_dbgrid() {
 // ------------------------------------------------------------------ Vario
 static std::string g_vario(const Vario* v) {
   int nvar = v->getVariableNumber(), ndir = v->getDirectionNumber();
-  std::string s = "(" + sx_i(v->_varioparam.getDimensionNumber()) + " " + sx_i(nvar) + " " + sx_d(v->getScale()) + " " + sx_i(v->getCalcul().getValue()) + " " + sx_vs(v->getVariableNames()) + " (";
+  std::string s = "(" + sx_i(v->_varioparam.getDimensionNumber()) + " " + sx_i(nvar) + " " + sx_d(v->getScale()) + " " + sx_i(v->getCalcul().getValue()) + " " +
+                  sx_vdd(v->getDates()) + " " + sx_vs(v->getVariableNames()) + " (";
   for (int i = 0; i < nvar; i++) { if (i) s += " "; s += "(";
     for (int j = 0; j < nvar; j++) { if (j) s += " "; s += sx_d(v->getVar(i, j)); } s += ")"; }
   s += ") (";
   for (int d = 0; d < ndir; d++) {
     const DirParam& dp = v->getDirParam(d);
     if (d) s += " ";
-    s += "(" + sx_b(dp.getFlagRegular()) + " " + sx_i(dp.getLagNumber()) + " " + sx_i(dp.getOptionCode()) + " " + sx_d(dp.getTolCode()) + " " + sx_d(dp.getDPas()) + " " + sx_d(dp.getTolDist()) + " ";
-    s += sx_vi(dp.getGrincrs()) + " " + sx_d(dp.getTolAngle()) + " " + sx_vdd(dp.getCodirs()) + " (";
+    s += "(" + sx_i(dp.getLagNumber()) + " " + sx_i(dp.getOptionCode()) + " " + sx_d(dp.getTolCode()) + " " + sx_d(dp.getDPas()) + " " + sx_d(dp.getTolDist()) + " ";
+    s += sx_vi(dp.getGrincrs()) + " " + sx_d(dp.getTolAngle()) + " " + sx_vdd(dp.getCodirs()) + " ";
+    s += sx_d(dp.getBench()) + " " + sx_d(dp.getCylRad()) + " " + sx_i(dp.getIdate()) + " " + sx_vdd(dp.getBreaks()) + " (";
     for (int i = 0; i < v->getDirSize(d); i++) { if (i) s += " "; s += "(" + sx_d(v->getSwByIndex(d, i)) + " " + sx_d(v->getHhByIndex(d, i)) + " " + sx_d(v->getGgByIndex(d, i)) + ")"; }
     s += "))";
   }
@@ -361,7 +386,7 @@ static std::string g_vario(const Vario* v) {
 }
 static Cls cls_vario() {
   Cls c;
-  // recipe: (ndim nvar calcul scale dates nech coords(by dim) values(by var) dirs nas)
+  // recipe: (ndim nvar calcul scale dates nech coords(by dim) values(by var) dirs nas [names])
   //   dir = (kind npas dpas toldis tolang optcode idate bench cylrad tolcode breaks codir grincr)   kind 0: free, 1: on a grid
   //   nas = ((idir i which) ...) results set to TEST afterwards;  grid recipes give nx instead of coords
   c.build = [](const Sx& r) -> ASerializable* {
@@ -380,7 +405,11 @@ static Cls cls_vario() {
       int nech = (int) r[5].i();
       db = Db::createFromSamples(nech, ELoadBy::COLUMN, VectorDouble(), VectorString(), VectorString(), false);
       for (int k = 0; k < ndim; k++) db->addColumns(VD(r[6][k]), "x" + std::to_string(k + 1), ELoc::X, k);
-      for (int k = 0; k < nvar; k++) db->addColumns(VD(r[7][k]), r[7][k].size() ? ("var" + std::to_string(k + 1)) : "e", ELoc::Z, k);
+      // optional 11th element of the recipe: the names of the variables
+      for (int k = 0; k < nvar; k++) {
+        std::string nm = r[7][k].size() ? ("var" + std::to_string(k + 1)) : "e";
+        if (r.size() > 10 && (int) r[10].size() > k) nm = r[10][k].str();
+        db->addColumns(VD(r[7][k]), nm, ELoc::Z, k); }
     }
     for (auto& d : r[8].l) {
       if (d[0].i() == 1) { DirParam dp(grid, (int) d[1].i(), VI(d[12]), nullptr); vp.addDir(dp); }
@@ -396,11 +425,7 @@ static Cls cls_vario() {
     return v; };
   c.load = [](const std::string& f) -> ASerializable* { return Vario::createFromNF(f, false); };
   c.G = [](const ASerializable* o) { return g_vario(dynamic_cast<const Vario*>(o)); };
-  c.X = [](const ASerializable* o) { auto v = dynamic_cast<const Vario*>(o);
-    std::string s = "(" + sx_b(v->getFlagAsym()) + " " + sx_vdd(v->getDates()) + " (";
-    for (int d = 0; d < v->getDirectionNumber(); d++) { const DirParam& dp = v->getDirParam(d); if (d) s += " ";
-      s += "(" + sx_d(dp.getBench()) + " " + sx_d(dp.getCylRad()) + " " + sx_i(dp.getIdate()) + " " + sx_vdd(dp.getBreaks()) + ")"; }
-    return s + "))"; };
+  c.X = [](const ASerializable* o) { auto v = dynamic_cast<const Vario*>(o); return "(" + sx_b(v->getFlagAsym()) + ")"; };
   return c;
 }
 
@@ -428,7 +453,7 @@ static std::string g_model(const Model* m) {
 }
 static Cls cls_model() {
   Cls c;
-  // recipe: (ndim nvar field covs drifts means covar0)    cov = (type range param ranges sills angles)   drifts = (order nfex)
+  // recipe: (ndim nvar field covs drifts means covar0 [anam])    cov = (type range param ranges sills angles)   drifts = (order nfex)
   c.build = [](const Sx& r) -> ASerializable* {
     int ndim = (int) r[0].i(), nvar = (int) r[1].i();
     space(ndim);
@@ -440,6 +465,8 @@ static Cls cls_model() {
     if (!r[2].l.empty()) m->setField(r[2].d());
     if (!r[5].l.empty()) m->setMeans(VD(r[5]));
     if (!r[6].l.empty()) m->setCovar0s(VD(r[6]));
+    // optional 8th element: Hermite coefficients of an anamorphosis attached to the model
+    if (r.size() > 7 && !r[7].l.empty()) { AnamHermite* an = AnamHermite::create((int) r[7].size(), true, 1.); if (an != nullptr) { an->setPsiHns(VD(r[7])); m->setAnam(an); /* the model keeps the pointer: the anamorphosis must outlive it */ } }
     return m; };
   c.load = [](const std::string& f) -> ASerializable* { return Model::createFromNF(f, false); };
   c.G = [](const ASerializable* o) { return g_model(dynamic_cast<const Model*>(o)); };
@@ -453,7 +480,7 @@ static Cls cls_model() {
         for (double h : { 0.3, 2.1 }) for (int i = 0; i < nvar; i++) { if (!first) s += " "; first = false; s += sx_d(m->evalIvarIpas(h, dir, i, (i + k) % nvar)); } }
     s += ") (";
     for (int ic = 0; ic < m->getCovaNumber(); ic++) { if (ic) s += " "; s += sx_vdd(m->getCova(ic)->getAnisoAngles()); }
-    return s + "))"; };
+    return s + ") " + sx_b(m->hasAnam()) + ")"; };
   return c;
 }
 
@@ -501,7 +528,7 @@ static void more_classes(std::map<int, Cls>& m) {
       int n = (int) zc.size(); a->setStats(VD(r[3]));
       MatrixSquareGeneral A(n), B(n); VectorDouble va = VD(r[4]), vb = VD(r[5]);
       for (int i = 0; i < n; i++) for (int j = 0; j < n; j++) { A.setValue(i, j, va[i * n + j]); B.setValue(i, j, vb[i * n + j]); }
-      a->setPcaZ2F(A); a->setPcaF2Z(B); return a; },
+      a->setPcaZ2F(A); a->setPcaF2Z(B); a->calculateMeanAndVariance(); return a; },
                                   [](const std::string& f) -> ASerializable* { return AnamDiscreteDD::createFromNF(f, false); });
   // 24 AnamDiscreteIR: (rcoef zcuts data)
   m[24] = generic<AnamDiscreteIR>([](const Sx& r) -> ASerializable* {
@@ -546,9 +573,80 @@ static void more_classes(std::map<int, Cls>& m) {
       for (auto& f : r[7].l) { FracFault ft(f[0].d(), f[1].d()); for (auto& q : f[2].l) ft.addFaultPerFamily(q[0].d(), q[1].d(), q[2].d(), q[3].d()); e->addFault(ft); }
       return e; },
                                [](const std::string& f) -> ASerializable* { return FracEnviron::createFromNF(f, false); });
-  // 32 NeighImage: (ndim radius skip)
-  m[32] = generic<NeighImage>([](const Sx& r) -> ASerializable* { space((int) r[0].i()); return NeighImage::create(VI(r[1]), (int) r[2].i()); },
+  // 32 NeighImage: (ndim radius skip [options])
+  m[32] = generic<NeighImage>([](const Sx& r) -> ASerializable* { space((int) r[0].i()); NeighImage* n = NeighImage::create(VI(r[1]), (int) r[2].i());
+      if (n != nullptr && r.size() > 3) { n->setFlagXvalid(r[3][1].b()); aneigh_opts(n, r[3]); } return n; },
                               [](const std::string& f) -> ASerializable* { return NeighImage::createFromNF(f, false); });
+
+  // ---- getters of the classes modelled in the second wave (same layout as the objects of coq/C08/Model_rest.v, Model_rule.v)
+  m[20].G = [](const ASerializable* o) { auto d = dynamic_cast<const DbLine*>(o);
+    std::string s = "((";
+    for (size_t i = 0; i < d->_lineAdds.size(); i++) { if (i) s += " "; s += sx_vi(d->_lineAdds[i]); }
+    return s + ") " + g_db(d) + ")"; };
+  m[20].X = [](const ASerializable* o) { auto d = dynamic_cast<const DbLine*>(o);
+    return "(" + sx_s(d->toString()) + " " + x_db(d) + " " + sx_i(d->getLineNumber()) + ")"; };
+  m[21].G = [](const ASerializable* o) { auto d = dynamic_cast<const DbGraphO*>(o);
+    NF_Triplet t = d->_downArcs.getMatrixToTriplet();
+    std::string s = "((";
+    for (int i = 0; i < d->getArcNumber(); i++) { if (i) s += " "; s += "(" + sx_i(t.getRow(i)) + " " + sx_i(t.getCol(i)) + " " + sx_d(t.getValue(i)) + ")"; }
+    return s + ") " + g_db(d) + ")"; };
+  m[21].X = [](const ASerializable* o) { auto d = dynamic_cast<const DbGraphO*>(o);
+    return "(" + sx_s(d->toString()) + " " + x_db(d) + " " + sx_i(d->_downArcs.getNRows()) + " " + sx_i(d->_downArcs.getNCols()) + ")"; };
+  auto g_adisc = [](const AnamDiscrete* a) {
+    return sx_vdd(a->getZCut()) + " " + sx_i(a->getNElem()) + " " + sx_vdd(a->getStats().getValues()); };
+  m[23].G = [g_adisc](const ASerializable* o) { auto a = dynamic_cast<const AnamDiscreteDD*>(o);
+    return "(" + g_adisc(a) + " " + sx_d(a->getSCoef()) + " " + sx_d(a->getMu()) + " " + sx_vdd(a->getPcaZ2Fs().getValues()) + " " + sx_vdd(a->getPcaF2Zs().getValues()) + ")"; };
+  m[23].X = [](const ASerializable* o) { auto a = dynamic_cast<const AnamDiscreteDD*>(o);
+    int n = a->getNCut(); std::string s = "(" + sx_s(a->toString()) + " " + sx_d(a->getMean()) + " " + sx_d(a->getVariance()) + " (";
+    MatrixSquareGeneral A = a->getPcaZ2Fs();
+    if (A.getNRows() == n && A.getNCols() == n) for (int i = 0; i < n; i++) for (int j = 0; j < n; j++) { if (i + j) s += " "; s += sx_d(A.getValue(i, j)); }
+    s += ") (";
+    for (int ic = 0; ic < a->getNClass(); ic++) for (int ie = 0; ie < a->getNElem(); ie++) { if (ic + ie) s += " "; s += sx_d(a->getStats().getValue(ic, ie)); }
+    return s + "))"; };
+  m[24].G = [g_adisc](const ASerializable* o) { auto a = dynamic_cast<const AnamDiscreteIR*>(o);
+    return "(" + g_adisc(a) + " " + sx_d(a->getRCoef()) + ")"; };
+  m[24].X = [](const ASerializable* o) { auto a = dynamic_cast<const AnamDiscreteIR*>(o);
+    std::string s = "(" + sx_s(a->toString()) + " " + sx_d(a->getMean()) + " " + sx_d(a->getVariance()) + " (";
+    for (int ic = 0; ic < a->getNClass(); ic++) for (int ie = 0; ie < a->getNElem(); ie++) { if (ic + ie) s += " "; s += sx_d(a->getStats().getValue(ic, ie)); }
+    return s + "))"; };
+  m[26].G = [](const ASerializable* o) { auto t = dynamic_cast<const MeshEStandard*>(o);
+    return "(" + sx_i(t->getNDim()) + " " + sx_i(t->getNApices()) + " " + sx_i(t->getNApexPerMesh()) + " " + sx_i(t->getNMeshes()) + " " +
+           sx_vdd(t->_apices.getValues()) + " " + sx_vi(t->_meshes.getValues()) + ")"; };
+  m[26].X = [](const ASerializable* o) { auto t = dynamic_cast<const MeshEStandard*>(o);
+    std::string s = "(" + sx_s(t->toString()) + " (";
+    for (int i = 0; i < t->getNApices(); i++) for (int j = 0; j < t->getNDim(); j++) { if (i + j) s += " "; s += sx_d(t->getApexCoor(i, j)); }
+    s += ") (";
+    for (int i = 0; i < t->getNMeshes(); i++) for (int j = 0; j < t->getNApexPerMesh(); j++) { if (i + j) s += " "; s += sx_i(t->getApex(i, j)); }
+    return s + "))"; };
+  // a rule: (mode rho nodes) with the nodes (type facies) in prefix order (facies 0 for a threshold)
+  static std::function<void(const Node*, std::string&)> walk = [](const Node* n, std::string& s) {
+    if (n == nullptr) return;
+    if (s.size() > 1) s += " ";
+    bool thr = n->getOrient() != 0;
+    s += "(" + sx_i(n->getOrient()) + " " + sx_i(thr ? 0 : n->getFacies()) + ")";
+    walk(n->getR1(), s); walk(n->getR2(), s); };
+  auto g_rule = [](const Rule* r) { std::string t = "("; walk(r->getMainNode(), t); t += ")";
+    return "(" + sx_i(r->getModeRule().getValue()) + " " + sx_d(r->getRho()) + " " + t + ")"; };
+  m[27].G = [g_rule](const ASerializable* o) { return g_rule(dynamic_cast<const Rule*>(o)); };
+  m[28].G = [g_rule](const ASerializable* o) { auto r = dynamic_cast<const RuleShift*>(o);
+    return "(" + g_rule(r) + " " + sx_d(r->getSlope()) + " " + sx_d(r->getShDown()) + " " + sx_d(r->getShDsup()) + " " + sx_vdd(r->getShift()) + ")"; };
+  m[29].G = [g_rule](const ASerializable* o) { auto r = dynamic_cast<const RuleShadow*>(o);
+    return "(" + g_rule(r) + " " + sx_d(r->getSlope()) + " " + sx_d(r->getShDown()) + " " + sx_d(r->getShDsup()) + " " + sx_vdd(r->getShift()) + ")"; };
+  m[30].G = [](const ASerializable* o) { auto F = dynamic_cast<const Faults*>(o);
+    std::string s = "(";
+    for (int i = 0; i < F->getNFaults(); i++) { if (i) s += " "; s += g_pts(&F->getFault(i)); }
+    return s + ")"; };
+  m[31].G = [](const ASerializable* o) { auto e = dynamic_cast<const FracEnviron*>(o);
+    std::string s = "(" + sx_d(e->getXmax()) + " " + sx_d(e->getYmax()) + " " + sx_d(e->getDeltax()) + " " + sx_d(e->getDeltay()) + " " + sx_d(e->getMean()) + " " + sx_d(e->getStdev()) + " (";
+    for (int i = 0; i < e->getNFamilies(); i++) { const FracFamily& f = e->getFamily(i); if (i) s += " ";
+      s += "(" + sx_d(f.getOrient()) + " " + sx_d(f.getDorient()) + " " + sx_d(f.getTheta0()) + " " + sx_d(f.getAlpha()) + " " + sx_d(f.getRatcst()) + " " +
+           sx_d(f.getProp1()) + " " + sx_d(f.getProp2()) + " " + sx_d(f.getAterm()) + " " + sx_d(f.getBterm()) + " " + sx_d(f.getRange()) + ")"; }
+    s += ") (";
+    for (int i = 0; i < e->getNFaults(); i++) { const FracFault& f = e->getFault(i); if (i) s += " ";
+      s += "(" + sx_d(f.getCoord()) + " " + sx_d(f.getOrient()) + " " + sx_vdd(f._thetal) + " " + sx_vdd(f._thetar) + " " + sx_vdd(f._rangel) + " " + sx_vdd(f._ranger) + ")"; }
+    return s + "))"; };
+  m[32].G = [](const ASerializable* o) { auto n = dynamic_cast<const NeighImage*>(o);
+    return "(" + g_aneigh(n) + " " + sx_i(n->getSkip()) + " " + sx_vi(n->getImageRadius()) + ")"; };
 }
 
 static std::map<int, Cls>& classes() {
@@ -673,5 +771,7 @@ static std::string run(const Sx& c) {
 int main(int argc, char** argv) {
   const char* d = getenv("VERIF_C08_DIR");
   DIR = d ? d : "/tmp/vb_C08/nf";
+  // relative file names (container / prefix cases) must land in the scratch directory, never in the caller's one
+  if (chdir(DIR.c_str()) != 0) { perror("chdir"); return 2; }
   return sx_main(argc, argv, run);
 }
